@@ -57,6 +57,7 @@ class Names:
     def __init__(self):
         self.ids = {}
         self.effs = {}
+        self.free = []  # results of memref.load: free names (memory contents are not modelled)
 
     def v(self, val) -> int:
         k = id(val)
@@ -138,6 +139,13 @@ def conv_block(block, nm: Names) -> list[str]:
                 else:
                     sizes.append(f"DStatic {zlit(s)}")
             out.append(f"Def {nat(nm.v(op.result))} (PSubview {nat(nm.v(op.source))} {coqlist(sizes)})")
+        elif isinstance(op, memref.LoadOp):
+            # a read of memory: an (ordered) event of the trace; the loaded value is a free name.  Treating reads
+            # as events over-approximates "a load may not move across a store to the same location".
+            r = nm.v(op.results[0])
+            if r not in nm.free:
+                nm.free.append(r)
+            out.append(f"Eff {nat(nm.eff(('memref.load',)))} {coqlist(nat(nm.v(a)) for a in op.operands)}")
         elif isinstance(op, scf.ForOp):
             if len(op.iter_args) != 0:
                 raise Unsupported("iter_args")
@@ -164,7 +172,7 @@ def snapshot(fn, nm: Names):
     blk = fn.body.blocks[0]
     args = [nm.v(a) for a in blk.args]
     prog = conv_block(blk, nm)
-    return coqlist(nat(a) for a in args), coqlist(prog)
+    return coqlist(nat(a) for a in args + [x for x in nm.free if x not in args]), coqlist(prog)
 
 
 def path_of(op, fn):
@@ -220,6 +228,8 @@ class Gen:
             self.consts[v] = self.const(2, v)
         idx = list(self.consts.values()) + ["%a0"]
         mems = [("%m0", "memref<?x?xi8>", ["?", "?"])] if self.family == "reuse" else []
+        if self.family == "reuse":
+            self.emit(2, "%g0 = memref.alloc() : memref<4x4xi8>")
         self.block(2, 0, idx, [], mems, top=True)
         hdr = ["builtin.module {", "  func.func private @ext(index, index) -> ()",
                "  func.func @f(%a0 : index" + (", %m0 : memref<?x?xi8>" if self.family == "reuse" else "") + ") {"]
@@ -304,7 +314,54 @@ class Gen:
 
     def mem(self, ind, idx, ivs, mems):
         rng = self.rng
-        k = rng.choice(["alloc", "alloc", "dim", "dim", "subview", "subview", "min", "chain", "chain"])
+        k = rng.choice(["alloc", "alloc", "dim", "dim", "subview", "subview", "min", "chain", "chain", "chain2", "chain2"])
+        if k in ("alloc", "dim") and rng.random() < 0.35 and 0 in self.consts and 1 in self.consts:
+            # a load from and (mostly) a store to a loop-invariant address of a buffer defined outside the loops
+            a, b = self.consts[rng.choice([0, 1])], self.consts[rng.choice([0, 1])]
+            buf, bty = rng.choice([("%g0", "memref<4x4xi8>"), ("%g0", "memref<4x4xi8>"), ("%m0", "memref<?x?xi8>")])
+            v = self.fresh("ld")
+            self.emit(ind, f"{v} = memref.load {buf}[{a}, {b}] : {bty}")
+            self.tag += 1
+            self.emit(ind, f'"test.op"({v}) {{tag = {self.tag} : i32}} : (i8) -> ()')
+            if rng.random() < 0.7:
+                self.emit(ind, f"memref.store {v}, {buf}[{a}, {b}] : {bty}")
+            return
+        if k == "chain2":
+            # memref.dim (index 0 and 1) of a subview with TWO dynamic sizes of different value, feeding an
+            # alloc that an opaque op observes (the size operand looked up must be the right one)
+            vals = [v for v in self.consts if v > 0]
+            if len(vals) < 2:
+                k = "chain"
+            else:
+                v0, v1 = rng.sample(vals, 2)
+                s0 = self.consts[v0] if rng.random() < 0.6 else self.const(ind, v0)
+                s1 = self.consts[v1] if rng.random() < 0.6 else self.const(ind, v1)
+                if rng.random() < 0.3 and ivs:
+                    c, n = rng.choice([2, 4, 8]), rng.choice([6, 10, 12])
+                    s0 = self.fresh("mn")
+                    self.emit(ind, f"{s0} = affine.min affine_map<(d0) -> ({c}, -d0 + {n})>({rng.choice(ivs)})")
+                src = rng.choice(mems)
+                offs = [rng.choice(ivs) if ivs and rng.random() < 0.6 else "0" for _ in range(2)]
+                ty = "memref<?x?xi8, strided<[?, 1], offset: ?>>"
+                sv = self.fresh("sv")
+                self.emit(ind, f"{sv} = memref.subview {src[0]}[{offs[0]}, {offs[1]}] [{s0}, {s1}] [1, 1] : {src[1]} to {ty}")
+                mems.append((sv, ty, ["?", "?"]))
+                ds = []
+                for di in rng.choice([[0, 1], [1, 0], [1], [0]]):
+                    d = self.fresh("d")
+                    self.emit(ind, f"{d} = memref.dim {sv}, {self.consts[di]} : {ty}")
+                    ds.append(d)
+                al = self.fresh("al")
+                if len(ds) == 2:
+                    self.emit(ind, f"{al} = memref.alloc({ds[0]}, {ds[1]}) : memref<?x?xi8>")
+                    aty = "memref<?x?xi8>"
+                else:
+                    self.emit(ind, f"{al} = memref.alloc({ds[0]}) : memref<?x4xi8>")
+                    aty = "memref<?x4xi8>"
+                mems.append((al, aty, None))
+                self.tag += 1
+                self.emit(ind, f'"test.op"({al}, {sv}) {{tag = {self.tag} : i32}} : ({aty}, {ty}) -> ()')
+                return
         if k == "min":
             iv = rng.choice(ivs) if ivs else rng.choice(idx)
             c, n = rng.choice([2, 4, 8]), rng.choice([6, 10, 12, 16])
@@ -429,6 +486,34 @@ CORPUS = {
   func.return } }""",
     ],
     "reuse": [
+        # a loop that loads from and stores to a loop-invariant address
+        """builtin.module { func.func @f(%a0 : index, %m0 : memref<?x?xi8>) {
+  %c0 = arith.constant 0 : index
+  %c1 = arith.constant 1 : index
+  %c3 = arith.constant 3 : index
+  %k = arith.constant 1 : i8
+  %g = memref.alloc() : memref<4x4xi8>
+  scf.for %i = %c0 to %c3 step %c1 {
+    %v = memref.load %g[%c0, %c1] : memref<4x4xi8>
+    %w = arith.addi %v, %k : i8
+    "test.op"(%i, %v) : (index, i8) -> ()
+    memref.store %w, %g[%c0, %c1] : memref<4x4xi8>
+  }
+  func.return } }""",
+        # dims of a subview with two dynamic sizes of different value
+        """builtin.module { func.func @f(%a0 : index, %m0 : memref<?x?xi8>) {
+  %c0 = arith.constant 0 : index
+  %c1 = arith.constant 1 : index
+  %c3 = arith.constant 3 : index
+  %c5 = arith.constant 5 : index
+  scf.for %i = %c0 to %c3 step %c1 {
+    %sv = memref.subview %m0[%i, 0] [%c3, %c5] [1, 1] : memref<?x?xi8> to memref<?x?xi8, strided<[?, 1], offset: ?>>
+    %d0 = memref.dim %sv, %c0 : memref<?x?xi8, strided<[?, 1], offset: ?>>
+    %d1 = memref.dim %sv, %c1 : memref<?x?xi8, strided<[?, 1], offset: ?>>
+    %al = memref.alloc(%d0, %d1) : memref<?x?xi8>
+    "test.op"(%i, %al) : (index, memref<?x?xi8>) -> ()
+  }
+  func.return } }""",
         """builtin.module { func.func @f(%a0 : index, %m0 : memref<?x?xi8>) {
   %c0 = arith.constant 0 : index
   %c1 = arith.constant 1 : index
@@ -547,10 +632,14 @@ class Recorder:
 
 def run_case(text, family, record=True):
     """-> dict(before, after, records, error)"""
-    mod = parse(text)
+    res = {"text": text, "family": family}
+    try:
+        mod = parse(text)
+    except Exception as e:  # a generator bug must not look like a violation
+        res["error"] = f"unsupported:generated-program-does-not-parse:{str(e)[:80]}"
+        return res
     fn = the_func(mod)
     nm = Names()
-    res = {"text": text, "family": family}
     try:
         res["before"] = snapshot(fn, nm)
     except Unsupported as e:
@@ -600,7 +689,7 @@ def loops_of(fn):
 
 HEADER = "From Snax Require Import Base.Prelude Model.C17Loop.\nLocal Open Scope nat_scope.\n"
 L1_TEST = ("fun c : list var * list op * rule * list nat * list op => match c with (args, b, r, p, a) => "
-           "wf_prog args b && match rewrite_in args r p b with Some b' => wf_prog args b' && block_eqb (canon %d%%nat b') (canon %d%%nat a) | None => false end end" % (BASE, BASE))
+           "match rewrite_in args r p b with Some b' => (negb (wf_prog args b) || wf_prog args b') && block_eqb (canon %d%%nat b') (canon %d%%nat a) | None => false end end" % (BASE, BASE))
 FIX_TEST = ("fun c : list op * rule * list nat => match c with (b, r, p) => "
             "match rewrite r p b with Some _ => false | None => true end end")
 
@@ -769,7 +858,7 @@ def search(ctx, deep=False):
         fam = "canon" if i % 2 == 0 else "reuse"
         todo.append((fam, gen_text(rng, fam)))
     for fam, text in todo:
-        r = run_case(text, fam, record=False)
+        r = run_case(text, fam, record=(fam == "reuse"))
         if "error" in r:
             ctx.count({"L2": fam, "error": r["error"]}, False, None, "L2-" + r["error"].split(":")[0])
             continue
@@ -784,6 +873,8 @@ def search(ctx, deep=False):
         if code == 0:
             continue
         klass = "move_dim_affine_min" if code == 3 else None
+        if code == 2 and fam == "reuse" and any(x.get("rule") == "MoveDim" for x in r.get("records", [])):
+            klass = "move_dim_use_before_def"
         what = {1: "trace-differs", 2: "result-not-well-formed-ssa", 3: "trace-differs"}[code]
         if (what, klass) in seen:
             continue
@@ -801,7 +892,7 @@ def replay_known(ctx, entry):
     if "error" in r:
         return False
     codes = l2_eval([(w["family"], r, [tuple(e) for e in w["envs"]])])
-    return codes[0] == 3
+    return codes[0] == (2 if entry["class"] == "move_dim_use_before_def" else 3)
 
 
 def replay(ctx, obj):
